@@ -38,7 +38,15 @@ type c05Case struct {
 	Lens   []int      `json:"lens"`           // message lengths of the stream under attack
 	Faults []c05Fault `json:"faults"`         // applied in order
 	Busy   bool       `json:"busy,omitempty"` // the receiving side also SENDS (Encrypt) between the reads that deliver the stream
+	// connection level only: Peer selects the shape of the remote address (0 IPv4, 1 IPv6, 2 link-local IPv6 with a
+	// zone); Neigh adds an adversary connection from the same host and another port on the same accessory:
+	// "after" = opened after the attacked connection got its keys; "diverted" = opened before, and the frames the
+	// adversary removed from the attacked stream are sent to the accessory on it while the attacked stream is arriving
+	Peer  int    `json:"peer,omitempty"`
+	Neigh string `json:"neigh,omitempty"`
 }
+
+var c05Peers = [][2]string{{"10.0.0.2:50001", "10.0.0.2:50002"}, {"[2001:db8::1]:50001", "[2001:db8::1]:50002"}, {"[fe80::1%eth0]:50001", "[fe80::1%eth0]:50002"}}
 
 type c05Frame struct {
 	start, end int
@@ -357,10 +365,51 @@ func c05Conn(c *fw.Ctx, cas c05Case) {
 			}
 		}
 	}
-	sc := &scriptedConn{segs: []c07Seg{{data: alt}}}
+	if cas.Neigh != "" {
+		kinds = "conn-neighbour-" + cas.Neigh + "/"
+		for _, f := range cas.Faults {
+			kinds += f.Kind + "+"
+		}
+	}
+	sc := &scriptedConn{segs: []c07Seg{{data: alt}}, remote: c05Peers[cas.Peer][0]}
 	ctx := hap.NewContextForSecuredDevice(nil)
+	var nb *scriptedConn
+	var nbConn *hap.Connection
+	openNeighbour := func() {
+		nb = &scriptedConn{remote: c05Peers[cas.Peer][1]}
+		nbConn = hap.NewConnection(nb, ctx)
+	}
+	if cas.Neigh == "diverted" {
+		openNeighbour()
+	}
 	conn := hap.NewConnection(sc, ctx)
 	ctx.GetSessionForConnection(sc).SetCryptographer(s.recv)
+	if cas.Neigh == "after" {
+		openNeighbour()
+	}
+	if cas.Neigh == "diverted" && j >= 0 && p < len(alt) {
+		// the original bytes from the first difference up to the next frame boundary go to the neighbour connection
+		// at the moment the attacked connection is about to receive the bytes that follow the alteration
+		end := len(s.stream)
+		for _, f := range s.frames {
+			if p < f.end {
+				end = f.end
+				break
+			}
+		}
+		diverted := s.stream[p:end]
+		sc.segs = []c07Seg{{data: alt[:p]}, {data: alt[p:], before: func() {
+			nb.segs = append(nb.segs, c07Seg{data: diverted})
+			guard(func() {
+				buf := make([]byte, 4096)
+				nbConn.Read(buf)
+			})
+		}}}
+		if p == 0 {
+			sc.segs = sc.segs[1:]
+		}
+	}
+	_ = nbConn
 	var got []byte
 	var rerr error
 	afterErr := 0
@@ -415,6 +464,8 @@ func c05Conn(c *fw.Ctx, cas c05Case) {
 		c.Report("released-past-alteration/"+kinds, fmt.Sprintf("plaintext of %d frames delivered although frame %d was altered", k, j), cas)
 	case j >= 0 && !timeout && rerr == nil:
 		c.Report("no-error/"+kinds, "altered stream consumed without an error", cas)
+	case j < 0 && len(cas.Faults) == 0 && k < len(s.frames):
+		c.Report("unaltered-not-delivered/"+kinds, fmt.Sprintf("an unaltered stream of %d frames: only %d were delivered", len(s.frames), k), cas)
 	case afterErr > 0:
 		c.Report("released-after-error/"+kinds, fmt.Sprintf("after reporting an error the connection handed %d more bytes to a caller that kept reading", afterErr), cas)
 	}
@@ -574,6 +625,27 @@ func c05Run(c *fw.Ctx) {
 					}
 					if dir == "acc" && len(s.stream) < 2200 && (f.Kind != "flip" || f.A%8 == 3 || c.Thorough()) {
 						c05Conn(c, cas) // the same fault one level up, through hap.Connection.Read
+					}
+					if dir == "acc" && len(s.stream) < 2200 && f.Kind != "flip" && f.Kind != "truncate" && f.Kind != "insert-byte" && f.Kind != "drop-byte" {
+						// … and with an adversary connection from the same host next to it, for three address shapes
+						for peer := range c05Peers {
+							for _, ng := range []string{"after", "diverted"} {
+								x := cas
+								x.Peer, x.Neigh = peer, ng
+								c05Conn(c, x)
+							}
+						}
+					}
+				}
+				if dir == "acc" && len(s.stream) < 2200 && len(s.stream) > 0 {
+					// the unaltered stream next to a neighbour connection: everything is delivered
+					for peer := range c05Peers {
+						idx++
+						if c.Mine(idx) {
+							x := base
+							x.Peer, x.Neigh = peer, "after"
+							c05Conn(c, x)
+						}
 					}
 				}
 				if c.Thorough() && len(s.stream) < 1200 && secret == 0 {
